@@ -320,9 +320,11 @@ def argv(opts, path, list_tests=False):
         a += ['-m', p]
     for p in opts.get('layer') or []:
         a += ['--layer', p]
+    if opts.get('all') and opts.get('all_first'):
+        a += ['--all']                   # --all wins wherever it stands on the command line
     if opts.get('at_level') is not None:
         a += ['--at-level=%d' % opts['at_level']]
-    if opts.get('all'):
+    if opts.get('all') and not opts.get('all_first'):
         a += ['--all']
     if opts.get('only_level') is not None:
         a += ['--only-level=%d' % opts['only_level']]
